@@ -2,7 +2,8 @@
 # Runs every seeded change against the frozen checks, four streams in parallel (longest first):
 #   own mutants and the two latest sub-agent rounds against ALL 20 checks,
 #   the earlier rounds against the target property's family of checks (flow / batch / store; see run_agents.py --group).
-# Results: /tmp/final/res_r<N>.json, /tmp/final/own.json
+# Results: /tmp/final/res_r<N>.json, /tmp/final/own.json (the copies the catch matrix of DESIGN §11 was made from are in selftest/results/;
+# rounds 11-15 were run the same way, --group, at the end of their own round)
 export GOFLAGS=-mod=mod GOPROXY=off GOSUMDB=off GOTOOLCHAIN=local
 cd "$(dirname "$0")/.."
 mkdir -p /tmp/final
@@ -11,11 +12,11 @@ export VERIF_WATCHDOG_S=${VERIF_WATCHDOG_S:-240}  # a child hung by a seeded cha
 one() {
   case "$1" in
     own) RESULTS_OUT=/tmp/final/own.json ./selftest/run_own.py --all > /tmp/final/all_own.log 2>&1 ;;
-    9|10) RESULTS_OUT=/tmp/final/res_r$1.json ./selftest/run_agents.py seeded-src/r$1 --all > /tmp/final/all_r$1.log 2>&1 ;;
-    *) RESULTS_OUT=/tmp/final/res_r$1.json ./selftest/run_agents.py seeded-src/r$1 --group > /tmp/final/all_r$1.log 2>&1 ;;
+    9|10) RESULTS_OUT=/tmp/final/res_r$1.json ./selftest/run_agents.py seeded r$1- --all > /tmp/final/all_r$1.log 2>&1 ;;
+    *) RESULTS_OUT=/tmp/final/res_r$1.json ./selftest/run_agents.py seeded r$1- --group > /tmp/final/all_r$1.log 2>&1 ;;
   esac
   echo "done $1 $(date +%H:%M)"
 }
 export -f one
-printf '%s\n' own 10 9 8 7 6 5 4 3 2 1 | xargs -P 4 -I{} bash -c 'one {}'
+printf '%s\n' own ${ROUNDS:-10 9 8 7 6 5 4 3 2 1} | xargs -P 4 -I{} bash -c 'one {}'
 echo MATRIX-DONE
